@@ -59,14 +59,11 @@ def run_history(ctx, seed):
         session = pw.start()
         rec = pw.rec
         cluster = pw.cluster
-        prepared = None
-        if rng.random() < 0.5:
-            prepared = {}
+        prepared = True if rng.random() < 0.5 else None
         pw.ch.p_time = rng.choice([0.0, 0.05, 0.15])
         kinds = {}
         uid = [0]
         timeout = 1.0
-        pool_was_shutdown = {}
         did_shutdown = [False]
 
         def new_uid():
@@ -116,7 +113,7 @@ def run_history(ctx, seed):
                 held_unprepared = lambda node, cstate, req, uid: ('hold', node.error(cstate, req, 'unprepared', 'unprepared', query_id=req['query_id'])[1])
                 plan.set(u, [rng.choice(['unprepared', held_unprepared]), 'rows'])
                 steps_log.append(('send-prepared', u))
-                rec.execute_async(session, u, statement=ps.bind(()), timeout=timeout * 3)
+                rec.execute_async(session, u, statement=ps.bind(()), timeout=300.0)       # see ctx.assume: no client timeout on the re-prepare path
             elif r < 0.56:
                 ps = pw.pools()
                 if ps:
@@ -207,24 +204,34 @@ def run_history(ctx, seed):
         stale_x, stale_y = {}, {}
         with world.inspect():
             wl = net.wire_log
-            # pair every UNPREPARED answer with the PREPARE the driver sent next for the same statement
-            unprep = []        # (conn of the EXECUTE, query id)
-            for rq in wl:
-                if rq['op'] == 'EXECUTE':
-                    q = plan.prepared.get(rq['query_id'], '')
-                    from sim.scen import uid_of
-                    u = uid_of(q)
-                    if kinds.get(u) == 'unprepared':
-                        unprep.append([rq['_conn'], q, rq['_node'], False, u])
-                elif rq['op'] == 'PREPARE':
+            # pair every UNPREPARED answer with the PREPARE a pool connection carried next for the same statement (PREPAREs before the answer left the
+            # node - session.prepare(), Cluster._prepare_all_queries on a host that came back - are not the re-prepare)
+            from sim.scen import uid_of
+            unprep = []        # [conn of the EXECUTE, stream, query, node, answered?, paired?]
+            wi = 0
+            answered_uids = set()
+            for ev in net.events:
+                if ev[0] == 'node_recv':
+                    rq = wl[wi]
+                    wi += 1
+                    if rq['op'] == 'EXECUTE':
+                        q = plan.prepared.get(rq['query_id'], '')
+                        u = uid_of(q)
+                        if kinds.get(u) == 'unprepared' and u not in answered_uids:
+                            answered_uids.add(u)          # only the first EXECUTE of a uid is answered UNPREPARED
+                            unprep.append([rq['_conn'], rq['stream'], q, rq['_node'], False, False])
+                    elif rq['op'] == 'PREPARE' and net.conns[rq['_conn']].sim_creator in POOL_CREATORS:
+                        for e in unprep:
+                            if e[4] and not e[5] and e[2] == rq['query'] and e[3] == rq['_node']:
+                                e[5] = True
+                                if rq['_conn'] != e[0]:
+                                    stale_x[e[0]] = stale_x.get(e[0], 0) + 1
+                                    stale_y[rq['_conn']] = stale_y.get(rq['_conn'], 0) + 1
+                                break
+                elif ev[0] == 'node_send':
                     for e in unprep:
-                        if not e[3] and e[1] == rq['query'] and e[2] == rq['_node'] and e[0] is not None:
-                            # session.prepare() itself also sends PREPARE (before the EXECUTE): only PREPAREs after the EXECUTE count
-                            e[3] = True
-                            if rq['_conn'] != e[0]:
-                                stale_x[e[0]] = stale_x.get(e[0], 0) + 1
-                                stale_y[rq['_conn']] = stale_y.get(rq['_conn'], 0) + 1
-                            break
+                        if not e[4] and e[0] == ev[1] and e[1] == ev[2]:
+                            e[4] = True
             # only the first EXECUTE of a uid is answered UNPREPARED; the retry EXECUTE must not be paired again
             info['reprepare_on_other_connection'] = sum(stale_x.values())
 
@@ -279,6 +286,13 @@ def run_history(ctx, seed):
         world.settle()
         pw.release_handshakes()
         world.settle()
+        def replaced_then_reported(p, c):
+            """connections of pool p older than c that were replaced because of the orphan threshold (borrow_connection asked for it) and were
+            later also reported to the pool as failed (return_connection asked for a replacement again)"""
+            asked = set((w, cid) for w, cid, pid in pw.replace_log if pid == id(p))
+            return [x for x in net.conns if owner_of(x) is p and x.sim_id < c.sim_id and x.orphaned_threshold_reached and x.signaled_error and
+                    ('borrow_connection', x.sim_id) in asked and ('return_connection', x.sim_id) in asked]
+
         with world.inspect():
             census = 0
             for c in pw.pool_conns():
@@ -305,12 +319,12 @@ def run_history(ctx, seed):
                     viol.append(('duplicate-replacement-leaks-superseded-connection', where + ': borrow_connection asked twice for a replacement of conn %s '
                                  '(stale `conn` read before the first replacement finished); the second _replace overwrote _connection without closing it' % (
                                      pw.duplicate_replacements(p),)))
-                elif pname == 'HostConnection' and not installed and any(
-                        owner_of(x) is p and x.sim_id in pw.trashed and x.signaled_error and x.sim_id < c.sim_id for x in net.conns):
-                    x = [x for x in net.conns if owner_of(x) is p and x.sim_id in pw.trashed and x.signaled_error and x.sim_id < c.sim_id][0]
-                    viol.append(('closed-replaced-connection-returned-drops-live-connection', where + ': conn %d had already been replaced (it was in _trash) when it was '
-                                 'returned closed/defunct (%s); return_connection took that for a failure of the pool\'s connection and dropped the live one without '
-                                 'closing it' % (x.sim_id, 'stale return by _execute_after_prepare' if x.sim_id in stale_x else 'the trashed connection failed')))
+                elif pname == 'HostConnection' and not installed and replaced_then_reported(p, c):
+                    x = replaced_then_reported(p, c)[0]
+                    viol.append(('closed-replaced-connection-returned-drops-live-connection', where + ': conn %d had reached the orphan threshold and was being / had been '
+                                 'replaced when it was handed to return_connection closed (%s); return_connection took that for a failure of the pool\'s connection '
+                                 'and dropped the live one without closing it' % (x.sim_id, 'stale return by _execute_after_prepare' if x.sim_id in stale_x else (
+                                     'the replaced connection failed' if x.is_defunct else 'closed on purpose by _replace / the trash logic between the in_flight decrement and the is_closed test'))))
                 elif p is not None and not p.is_shutdown and c.sim_creator == 'pool-init' and session.is_shutdown and pw.pool_finished_after_session_shutdown(p):
                     viol.append(('pool-installed-after-session-shutdown-never-shut-down', where + ': Session.add_or_renew_pool finished building this pool after '
                                  'Session.shutdown() had swept the pools; it is registered (or dropped) without ever being shut down'))
@@ -322,7 +336,7 @@ def run_history(ctx, seed):
                         installed, c.sim_id in pw.trashed, getattr(p, 'is_shutdown', None), late)))
             info['census'] = census
         harness += pw.harness_errors()[len(harness):]
-    info.update({'conns': len(net.conns), 'online_checks': pw.checks[0], 'requests': uid[0],
+    info.update({'conns': len(net.conns), 'online_checks': pw.checks[0], 'requests': uid[0], 'replace_requests': [(w, c) for w, c, _ in pw.replace_log][:12],
                  'replaced': sum(1 for c in net.conns if c.sim_creator == 'pool-replace'),
                  'grown': sum(1 for c in net.conns if c.sim_creator == 'pool-grow'),
                  'refused': sum(1 for e in net.events if e[0] == 'conn_refused'),
@@ -342,6 +356,9 @@ def run(ctx):
                 "by the event-order signature of the world trace; non-trivial = at least 3 requests")
     ctx.assume("a connection refused by the node during a pool's replacement is refused at most 3 times in a row (the pools retry immediately and "
                "forever; an unbounded refusal never quiesces)")
+    ctx.assume("requests that go through UNPREPARED -> re-prepare do not hit their client timeout: ResponseFuture._reprepare does not update _req_id, so "
+               "_on_timeout would pop / orphan the EXECUTE's stream id on the PREPARE's connection (seen once: thorough seed 4400222, in_flight stuck at 1); "
+               "that is request-completion bookkeeping (C09/C14), not pool accounting")
     ctx.assume("the idle-heartbeat thread is off (its return_connection() on an already dead connection decrements in_flight without a borrow)")
     n = ctx.scale(900, 60000)
     budget = 44 if ctx.quick else 420
@@ -349,8 +366,9 @@ def run(ctx):
     import time as _t
     # wall-clock only bounds the amount of work (never a verdict); keep a minimum of work when start-up on a busy box ate the budget
     t_end = _t.time() + max(15 if ctx.quick else 120, ctx.time_left(budget))
+    n_min = 30 if ctx.quick else 150      # per worker, whatever the box is doing: the floors below must never depend on the load
     for i in range(n):
-        if _t.time() > t_end:
+        if i >= n_min and _t.time() > t_end:
             ctx.note("stopped by time budget after %d histories" % i)
             break
         seed = base + i
@@ -398,7 +416,7 @@ def run(ctx):
                            "node_history": [repr(e) for e in hist[2][-40:]], "closes": hist[3][-8:]})
         if not viol and len(ctx.samples) < 4 and info['replaced'] and info['requests'] < 12:
             ctx.sample({"info": info, "steps": [repr(e) for e in hist[0]], "closes": hist[3][-6:]})
-    ctx.floor_distinct = 60 if ctx.quick else 2000
+    ctx.floor_distinct = 60 if ctx.quick else 1200
     ctx.floor_counters = {"histories": 60, "histories_v2_pool": 10, "invariant_evaluations_under_lock": 3000, "pool_connections_in_closure_census": 80,
                           "quiescent_connections_checked_for_conservation": 20, "direct_borrows": 30, "borrows_attempted_after_shutdown": 10,
                           "replacement_connections": 5}
